@@ -57,15 +57,19 @@ Qed.
 Lemma attach_union s g et elm r0 s' :
   rows_of s g et = [r0] -> rc_null (grc r0) = true -> attach s g et elm = Ok s' ->
   (exists r1, rows_of s' g et = [r1] /\ grc r1 = grc r0 /\ forall x, In x (gmem r1) <-> In x (gmem r0) \/ In x elm) /\
-  (forall g' et', (g', et') <> (g, et) -> rows_of s' g' et' = rows_of s g' et') /\ tab s' = tab s.
+  (forall g' et', (g', et') <> (g, et) -> rows_of s' g' et' = rows_of s g' et') /\ tab s' = tab s /\
+  (forall x, In x elm -> In x (ids s et)).
 Proof.
-  intros Hrow Hrc. unfold attach. destruct (zin g (map gid (grp s))); simpl; [|discriminate].
-  rewrite Hrow, Hrc. intros E. inversion E; subst s'; clear E.
+  intros Hrow Hrc. unfold attach, attach_gen. destruct (zin g (map gid (grp s))); simpl; [|discriminate].
+  rewrite Hrow, Hrc. destruct (exist_ok s et elm false) eqn:Ex; simpl; [|discriminate].
+  intros E. inversion E; subst s'; clear E.
+  assert (Hex : forall x, In x elm -> In x (ids s et)).
+  { intros x Hx. unfold exist_ok in Ex. rewrite forallb_forall in Ex. apply zin_true, Ex, Hx. }
   set (f := fun r => if (gid r =? g) && Nat.eqb (gty r) et
                      then {| gid := gid r; gty := gty r; gmem := gmem r ++ zdiff elm (gmem r); grc := grc r |} else r).
   assert (Hsel : forall g' et' r, sel g' et' (f r) = sel g' et' r).
   { intros g' et' r. unfold f, sel. destruct ((gid r =? g) && Nat.eqb (gty r) et); reflexivity. }
-  split; [|split; [|reflexivity]].
+  split; [|split; [|split; [reflexivity | exact Hex]]].
   - unfold rows_of in *. simpl. fold (sel g et) in *. fold f. rewrite filter_map_commute by apply Hsel. rewrite Hrow. simpl.
     assert (S0 : sel g et r0 = true).
     { assert (In r0 (filter (sel g et) (grp s))) by (rewrite Hrow; left; reflexivity). apply filter_In in H. apply H. }
@@ -82,7 +86,7 @@ Lemma attach_new_row s g et elm s' :
   rows_of s g et = [] -> attach s g et elm = Ok s' ->
   exists r1, rows_of s' g et = [r1] /\ gmem r1 = elm /\ rc_null (grc r1) = true /\ forall x, In x elm -> In x (ids s et).
 Proof.
-  intros Hrow. unfold attach. destruct (zin g (map gid (grp s))); simpl; [|discriminate]. rewrite Hrow.
+  intros Hrow. unfold attach, attach_gen. destruct (zin g (map gid (grp s))); simpl; [|discriminate]. rewrite Hrow.
   destruct (exist_ok s et elm false) eqn:Ex; [|discriminate]. intros E. inversion E; subst s'; clear E.
   unfold rows_of in *. simpl. unfold add_rows. rewrite filter_app. simpl.
   assert (Hold : forall c l, filter (fun r => (gid r =? g) && Nat.eqb (gty r) et) l = [] ->
@@ -146,6 +150,15 @@ Definition s_w1 : st :=
 Lemma attach_nan_refuted :
   exists s g et elm s', attach_old s g et elm = Ok s' /\ members_of s g et = Ok [7] /\ members_of s' g et = Err "ValueError".
 Proof. exists s_w1, 1, 0%nat, [2]. eexists. split; [vm_compute; reflexivity | split; vm_compute; reflexivity]. Qed.
+(* before the existence check: a non-existing index became a member of an existing row *)
+Lemma attach_unchecked_refuted :
+  exists s g et elm s', attach_unchecked s g et elm = Ok s' /\ members_of s' g et = Ok [4; 88] /\ ~ In 88 (ids s' et) /\
+                        attach s g et elm = Err "UserWarning".
+Proof.
+  exists {| grp := [{| gid := 0; gty := 0%nat; gmem := [4]; grc := RNone |}]; tab := mk_tab [[(4, 0); (7, 1)]] |}, 0, 0%nat, [88].
+  eexists. split; [vm_compute; reflexivity|]. split; [vm_compute; reflexivity|]. split; [|vm_compute; reflexivity].
+  vm_compute. intros [H|[H|[]]]; discriminate.
+Qed.
 (* two loads (4 and 2) carry the same name 0; the group is {name 0}; detaching load 4 also removes load 2 *)
 Definition s_w2 : st :=
   {| grp := [{| gid := 0; gty := 0%nat; gmem := [0; 1]; grc := RName |}]; tab := mk_tab [[(4, 0); (2, 0); (7, 1)]] |}.
